@@ -6,11 +6,10 @@ Streams
   table-*     grid_to_table on Datasets / DataArrays built directly with xarray
   round-*     grid_to_table(make_xarray_grid(...))
   mesh-*      meshgrid_from_1d / meshgrid_to_1d compositions
-  table-mixed-dims  (only with VERIF_C18_MIXED_DIMS=1) variables / coordinates whose dims are
-              declared in a different order than the first variable's: finding F6
+  table-mixed-dims  variables / non-index coordinates whose dims are declared in a different
+              order than the first variable's (finding F6, repaired in /repo: grid_to_table transposes them)
 """
 import itertools
-import os
 import random
 import numpy as np
 from . import core
@@ -28,7 +27,9 @@ RULE = ("every (rows, cols, #data variables 1..4 (and data=None), #extra coordin
         "(1e-10 relative, 100x inside the boundary); one-fault malformed inputs (non-meshgrid easting or northing, swapped or transposed "
         "meshgrids, mixed 1-D/2-D, shape mismatches of northing / extra / data, name-count mismatches, None names); grid_to_table on "
         "Datasets, named and unnamed DataArrays and Dataset members built directly with xarray with the coordinates declared in every "
-        "order (all permutations up to 4 coordinates) and grids stored as (easting, northing); arrays->grid->table round trips; "
+        "order (all permutations up to 4 coordinates), grids stored as (easting, northing), and Datasets / DataArrays whose later variables "
+        "and / or non-index coordinates are stored in the opposite dimension order to the first variable (the input class of finding F6); "
+        "arrays->grid->table round trips; "
         "meshgrid_from_1d/meshgrid_to_1d compositions both ways; random larger grids up to 8 x 9. A case is non-trivial when the call is accepted and the grid has at "
         "least 2 cells; distinct = distinct (stream, input) pairs.")
 ASSUMPTIONS = [
@@ -38,8 +39,6 @@ ASSUMPTIONS = [
     "numpy.meshgrid(e, n) is modelled by its definition (rows are copies of e; row i of the second output is constant n[i]); ndarray.ravel() is C order (concat of rows); pandas.DataFrame(dict) keeps key order",
 ]
 TRUSTED = ["python harness harness/c18.py (generators, conversion of xarray.Dataset / DataArray / pandas.DataFrame objects to model records, verdict parsing)"]
-
-MIXED = os.environ.get("VERIF_C18_MIXED_DIMS", "") not in ("", "0")
 
 
 # ---------------------------------------------------------------------------
@@ -424,10 +423,8 @@ def perturb(rnd, a, where, big):
 
 
 # ---------------------------------------------------------------------------
-def generate(tier, seed, mixed=None):
+def generate(tier, seed, mixed=True):
     import verde as vd
-    if mixed is None:
-        mixed = MIXED
     rnd = random.Random(seed)
     quick = tier == "quick"
     cases = []
@@ -457,7 +454,7 @@ def generate(tier, seed, mixed=None):
                 cases.append(case_round(vd, a, "round-2d" if two_d else "round-1d", "round"))
 
     # 2. meshgrids perturbed inside the tolerance (accepted) - make and round
-    for it in range(60 if quick else 600):
+    for it in range(60 if quick else 400):
         nn, ne = rnd.choice([s for s in shapes if s != (1, 1)])
         a = build(rnd, nn, ne, rnd.randint(1, 3), rnd.randint(0, 2), True, dims=rnd.choice(DIMS))
         for _ in range(rnd.randint(1, 3)):
@@ -560,7 +557,7 @@ def generate(tier, seed, mixed=None):
                 cases.append(case_table(vd, g, "table-" + mode + ("-T" if tr else ""), "table", recipe))
 
     # 5. meshgrid conversions
-    for it in range(90 if quick else 1500):
+    for it in range(90 if quick else 1000):
         nn, ne = rnd.choice(shapes)
         e, n = axes(rnd, nn, ne)
         nx = rnd.randint(0, 2)
@@ -591,7 +588,7 @@ def generate(tier, seed, mixed=None):
 
     # 5b. larger random grids (up to 8 x 9), all call styles
     big = [(nn, ne) for nn in range(1, 9) for ne in range(1, 10) if nn > R or ne > R]
-    for it in range(40 if quick else 1500):
+    for it in range(40 if quick else 800):
         nn, ne = rnd.choice(big)
         r = it % 5
         if r in (0, 1):
@@ -609,21 +606,25 @@ def generate(tier, seed, mixed=None):
             g, recipe = direct_grid(rnd, nn, ne, nd, nx, rnd.choice(DIMS[1:]), perm, mode)
             cases.append(case_table(vd, g, "table-large", "table", recipe))
 
-    # 6. finding F6 (off by default): dims declared in a different order than the first variable's
+    # 6. dims declared in a different order than the first variable's (the input class of finding F6)
     if mixed:
-        for it in range(30 if quick else 200):
-            nn, ne = rnd.choice([s for s in shapes if s[0] >= 2 and s[1] >= 2])   # 1 x k ravels are layout independent
-            nx = rnd.randint(0, 2)
+        for it in range(60 if quick else 500):
+            nn, ne = rnd.choice([s for s in shapes + big if s[0] >= 2 and s[1] >= 2] if it % 8 else shapes)
+            nx = rnd.randint(1, 3)
             nd = rnd.randint(2, 4)
-            which = it % 2
             dims = DIMS[1 + it % (len(DIMS) - 1)]
-            nx = max(nx, 1)
             perm = list(range(2 + nx))
             rnd.shuffle(perm)
-            if which == 0:
-                tr, mode = {("data", rnd.randrange(1, nd))}, "dataset"
-            else:
-                tr, mode = {("extra", rnd.randrange(nx))}, rnd.choice(["dataset", "named", "unnamed"])
+            which = it % 3
+            if which == 0:      # some variables (never the first) stored as (d1, d0)
+                tr = {("data", k) for k in rnd.sample(range(1, nd), rnd.randint(1, nd - 1))}
+                mode = "dataset"
+            elif which == 1:    # some extra coordinates stored as (d1, d0)
+                tr = {("extra", k) for k in rnd.sample(range(nx), rnd.randint(1, nx))}
+                mode = rnd.choice(["dataset", "named", "unnamed", "member"])
+            else:               # both
+                tr = {("data", rnd.randrange(1, nd)), ("extra", rnd.randrange(nx))}
+                mode = rnd.choice(["dataset", "member"])
             g, recipe = direct_grid(rnd, nn, ne, nd, nx, dims, perm, mode, transposed=tr)
             cases.append(case_table(vd, g, "table-mixed-dims", "table-mixed", recipe))
     return cases
@@ -631,9 +632,3 @@ def generate(tier, seed, mixed=None):
 
 def search(dis, tier, seed):
     return generate("thorough", seed + 1)
-
-
-def finding_key(case):
-    if case.kind == "table-mixed-dims":
-        return "F6"
-    return None
